@@ -34,6 +34,36 @@ type goLean struct {
 	voidMethod bool   // method without results: the translation returns the updated receiver
 	methods    map[string]*ast.FuncDecl
 	sentin     map[string]bool // package-level error variables
+	// extensions used by translateType (containersrc.go, recordsrc.go); zero values = behaviour as before
+	noClock bool                       // methods do not take `now`
+	structs map[string]*ast.StructType // struct types of the package that are translated to Lean structures
+	extern  map[string]string          // calls into other translated packages: "varint.Pack64" → Lean name
+}
+
+func (g *goLean) nowArg() string {
+	if g.noClock {
+		return ""
+	}
+	return " now"
+}
+
+// structName returns the Lean structure name for T or *T if T is one of the translated struct types.
+func (g *goLean) structName(t types.Type) (string, bool) {
+	if p, ok := t.(*types.Pointer); ok {
+		t = p.Elem()
+	}
+	if n, ok := t.(*types.Named); ok {
+		if _, ok := g.structs[n.Obj().Name()]; ok && n.Obj().Pkg() == g.pkg {
+			return n.Obj().Name(), true
+		}
+	}
+	return "", false
+}
+
+// zeroOf gives the Go zero value of a Lean type of the fragment.
+func zeroOf(leanT string) string {
+	return map[string]string{"Int": "(0 : Int)", "Bool": "false", "PB.Bytes": "([] : PB.Bytes)", "PB.Go.Err": "(none : PB.Go.Err)",
+		"List PB.Bytes": "([] : List PB.Bytes)", "String": "\"\""}[leanT]
 }
 
 type exprRes struct {
@@ -61,6 +91,9 @@ func lname(s string) string {
 }
 
 func (g *goLean) leanType(t types.Type) string {
+	if n, ok := g.structName(t); ok {
+		return n
+	}
 	switch u := t.Underlying().(type) {
 	case *types.Basic:
 		switch {
@@ -74,6 +107,11 @@ func (g *goLean) leanType(t types.Type) string {
 	case *types.Slice:
 		if b, ok := u.Elem().Underlying().(*types.Basic); ok && b.Kind() == types.Uint8 {
 			return "PB.Bytes"
+		}
+		if in, ok := u.Elem().Underlying().(*types.Slice); ok {
+			if b, ok := in.Elem().Underlying().(*types.Basic); ok && b.Kind() == types.Uint8 {
+				return "List PB.Bytes" // [][]byte
+			}
 		}
 	case *types.Interface:
 		if t.String() == "error" {
@@ -171,6 +209,12 @@ func (g *goLean) expr(e ast.Expr) exprRes {
 		case token.ADD, token.SUB, token.MUL:
 			op := map[token.Token]string{token.ADD: "+", token.SUB: "-", token.MUL: "*"}[x.Op]
 			return exprRes{g.wrap(t, "("+a.term+" "+op+" "+b.term+")"), gs, hs}
+		case token.QUO:
+			// integer division truncates toward zero; a zero divisor is a run-time panic
+			if tv := g.info.Types[x.Y]; tv.Value == nil || tv.Value.ExactString() == "0" {
+				gs = append(gs, "decide ("+b.term+" ≠ 0)")
+			}
+			return exprRes{g.wrap(t, "(Int.tdiv "+a.term+" "+b.term+")"), gs, hs}
 		case token.SHL:
 			tv := g.info.Types[x.Y]
 			if tv.Value == nil {
@@ -199,6 +243,13 @@ func (g *goLean) expr(e ast.Expr) exprRes {
 			r.term = g.wrap(g.info.TypeOf(e), "(0 - "+r.term+")")
 			return r
 		}
+		if x.Op == token.AND {
+			if cl, ok := x.X.(*ast.CompositeLit); ok {
+				if _, ok := g.structName(g.info.TypeOf(cl)); ok {
+					return g.expr(cl) // &T{…}: pointers to translated structs are values in Lean
+				}
+			}
+		}
 		g.die(e, "unary operator %s", x.Op)
 	case *ast.SelectorExpr:
 		// field of the receiver
@@ -209,6 +260,10 @@ func (g *goLean) expr(e ast.Expr) exprRes {
 	case *ast.IndexExpr:
 		a, i := g.expr(x.X), g.expr(x.Index)
 		gs, hs := merge(a, i)
+		if g.leanType(g.info.TypeOf(x.X)) == "List PB.Bytes" {
+			gs = append(gs, "PB.Go.inIdxL "+a.term+" "+i.term)
+			return exprRes{"(PB.Go.atL " + a.term + " " + i.term + ")", gs, hs}
+		}
 		gs = append(gs, "PB.Go.inIdx "+a.term+" "+i.term)
 		return exprRes{"(PB.Go.byteAt " + a.term + " " + i.term + ")", gs, hs}
 	case *ast.SliceExpr:
@@ -227,6 +282,46 @@ func (g *goLean) expr(e ast.Expr) exprRes {
 		gs = append(gs, "PB.Go.inSlice "+a.term+" "+lo.term+" "+hi.term)
 		return exprRes{"(PB.Go.slice " + a.term + " " + lo.term + " " + hi.term + ")", gs, hs}
 	case *ast.CompositeLit:
+		if sn, ok := g.structName(g.info.TypeOf(e)); ok {
+			// T{f: e, …}: every field of the structure, unnamed ones with their zero value
+			vals := map[string]exprRes{}
+			for _, el := range x.Elts {
+				kv, ok := el.(*ast.KeyValueExpr)
+				if !ok {
+					g.die(e, "positional struct literal")
+				}
+				vals[kv.Key.(*ast.Ident).Name] = g.expr(kv.Value)
+			}
+			var parts []string
+			var all []exprRes
+			for _, fld := range g.structs[sn].Fields.List {
+				for _, nm := range fld.Names {
+					if r, ok := vals[nm.Name]; ok {
+						all = append(all, r)
+						parts = append(parts, nm.Name+" := "+r.term)
+						delete(vals, nm.Name)
+					} else {
+						parts = append(parts, nm.Name+" := "+zeroOf(g.leanType(g.info.TypeOf(fld.Type))))
+					}
+				}
+			}
+			if len(vals) != 0 {
+				g.die(e, "struct literal names an unknown field")
+			}
+			gs, hs := merge(all...)
+			return exprRes{"({ " + strings.Join(parts, ", ") + " } : " + sn + ")", gs, hs}
+		}
+		if g.leanType(g.info.TypeOf(e)) == "List PB.Bytes" {
+			var parts []string
+			var all []exprRes
+			for _, el := range x.Elts {
+				r := g.expr(el)
+				all = append(all, r)
+				parts = append(parts, r.term)
+			}
+			gs, hs := merge(all...)
+			return exprRes{"([" + strings.Join(parts, ", ") + "] : List PB.Bytes)", gs, hs}
+		}
 		if g.leanType(g.info.TypeOf(e)) != "PB.Bytes" {
 			g.die(e, "composite literal of type %s", g.info.TypeOf(e))
 		}
@@ -254,9 +349,21 @@ func (g *goLean) expr(e ast.Expr) exprRes {
 			switch fn.Name {
 			case "len":
 				r := g.expr(x.Args[0])
+				if g.leanType(g.info.TypeOf(x.Args[0])) == "List PB.Bytes" {
+					r.term = "(PB.Go.lenL " + r.term + ")"
+					return r
+				}
 				r.term = "(PB.Go.len " + r.term + ")"
 				return r
 			case "append":
+				if len(x.Args) == 2 && g.leanType(g.info.TypeOf(x.Args[0])) == "List PB.Bytes" {
+					a, b := g.expr(x.Args[0]), g.expr(x.Args[1])
+					gs, hs := merge(a, b)
+					if x.Ellipsis.IsValid() {
+						return exprRes{"(" + a.term + " ++ " + b.term + ")", gs, hs}
+					}
+					return exprRes{"(" + a.term + " ++ [" + b.term + "])", gs, hs}
+				}
 				if len(x.Args) != 2 || !x.Ellipsis.IsValid() {
 					g.die(e, "only append(a, b...) is supported")
 				}
@@ -287,8 +394,22 @@ func (g *goLean) expr(e ast.Expr) exprRes {
 				if _, ok := g.methods[fn.Sel.Name]; ok && len(x.Args) == 0 {
 					g.fresh++
 					v := fmt.Sprintf("c%d", g.fresh)
-					return exprRes{term: v, hoists: []hoist{{v, g.recvType + "_" + fn.Sel.Name + " " + lname(g.recv) + " now"}}}
+					return exprRes{term: v, hoists: []hoist{{v, g.recvType + "_" + fn.Sel.Name + " " + lname(g.recv) + g.nowArg()}}}
 				}
+			}
+			if ln, ok := g.extern[exprString(g.fset, fn)]; ok {
+				var parts []string
+				var all []exprRes
+				for _, a := range x.Args {
+					r := g.expr(a)
+					all = append(all, r)
+					parts = append(parts, r.term)
+				}
+				gs, hs := merge(all...)
+				g.fresh++
+				v := fmt.Sprintf("c%d", g.fresh)
+				hs = append(hs, hoist{v, ln + " " + strings.Join(parts, " ")})
+				return exprRes{v, gs, hs}
 			}
 			if exprString(g.fset, fn) == "errors.New" {
 				tv := g.info.Types[x.Args[0]]
@@ -384,6 +505,43 @@ func (g *goLean) stmts(list []ast.Stmt, ind string) string {
 			upd = "{ " + upd + " with " + sel.Sel.Name + " := " + val + " }"
 		}
 		return "let " + m + " := if " + c.term + " then " + upd + " else " + m + "\n" + ind + g.stmts(rest, ind)
+	}
+	// c.Method(args) as a statement, Method without results: the receiver is replaced by the updated one
+	if es, ok := s.(*ast.ExprStmt); ok && g.recv != "" {
+		if call, ok := es.X.(*ast.CallExpr); ok {
+			if sel, ok := call.Fun.(*ast.SelectorExpr); ok {
+				if id, ok := sel.X.(*ast.Ident); ok && id.Name == g.recv {
+					md, ok := g.methods[sel.Sel.Name]
+					if !ok || (md.Type.Results != nil && len(md.Type.Results.List) > 0) {
+						g.die(s, "call statement to %s (not a translated method without results)", sel.Sel.Name)
+					}
+					var parts []string
+					var all []exprRes
+					for _, a := range call.Args {
+						r := g.expr(a)
+						all = append(all, r)
+						parts = append(parts, r.term)
+					}
+					m := lname(g.recv)
+					body := "match " + g.recvType + "_" + sel.Sel.Name + " " + m + g.nowArg() + " " + strings.Join(parts, " ") + " with\n" + ind + "| .panic => .panic\n" + ind + "| .ok " + m + " =>\n" + ni + g.stmts(rest, ni)
+					return wrapStmt(all, body, ind)
+				}
+			}
+		}
+	}
+	// c.f++ / c.f-- on a receiver field
+	if ids, ok := s.(*ast.IncDecStmt); ok && g.recv != "" {
+		if sel, ok := ids.X.(*ast.SelectorExpr); ok {
+			if id, ok := sel.X.(*ast.Ident); ok && id.Name == g.recv {
+				op := "+"
+				if ids.Tok == token.DEC {
+					op = "-"
+				}
+				m := lname(g.recv)
+				val := g.wrap(g.info.TypeOf(ids.X), "(("+m+"."+sel.Sel.Name+") "+op+" 1)")
+				return "let " + m + " := { " + m + " with " + sel.Sel.Name + " := " + val + " }\n" + ind + g.stmts(rest, ind)
+			}
+		}
 	}
 	switch x := s.(type) {
 	case *ast.BlockStmt:
